@@ -158,6 +158,11 @@ fn run_inner(id: &str) -> Option<(bool, String)> {
             let o = match catch_unwind(|| rbpf::helpers::rand(0, u64::MAX, 0, 0, 0)) { Ok(v) => Out::Ok(v), Err(_) => Out::Panic };
             (o == Out::Panic, format!("rand(0, u64::MAX): expected a value in [0, u64::MAX], got {:?}", o))
         }
+        "disasm-ja-min-offset" => {
+            let p = prog(&[i(ebpf::JA, 0, 0, i16::MIN, 0), i(ebpf::EXIT, 0, 0, 0, 0)]);
+            let o = catch_unwind(|| rbpf::disassembler::to_insn_vec(&p).len());
+            (o.is_err(), format!("to_insn_vec on `ja -0x8000; exit`: expected 2 entries, got {:?}", o.ok()))
+        }
         _ => return None,
     })
 }
